@@ -97,6 +97,45 @@ pub trait GenericLayoutTrait {
     fn get_num_columns_second(public_input: &PublicInput) -> Option<usize>;
 }
 
+/// Values of the program cells and of the output cells of the main page.
+///
+/// The program occupies the first `program_end_pc - initial_pc` cells of the page, at the consecutive
+/// addresses starting at `initial_pc`; the output occupies the last `output_stop - output_start`
+/// cells, at the consecutive addresses starting at `output_start`. A page that is too short or whose
+/// cells sit at other addresses is rejected.
+pub fn main_page_program_and_output(
+    public_input: &PublicInput,
+    initial_pc: Felt,
+    program_end_pc: Felt,
+    output_start: Felt,
+    output_stop: Felt,
+) -> Result<(alloc::vec::Vec<Felt>, alloc::vec::Vec<Felt>), PublicInputError> {
+    let page = &public_input.main_page;
+    let program_len: usize = (program_end_pc - initial_pc).to_bigint().try_into()?;
+    let output_len: usize = (output_stop - output_start).to_bigint().try_into()?;
+    if program_len > page.len() || output_len > page.len() {
+        return Err(PublicInputError::MainPageInvalid);
+    }
+
+    let mut program = alloc::vec::Vec::with_capacity(program_len);
+    for (i, cell) in page.iter().take(program_len).enumerate() {
+        if cell.address != initial_pc + Felt::from(i) {
+            return Err(PublicInputError::MainPageInvalid);
+        }
+        program.push(cell.value);
+    }
+
+    let mut output = alloc::vec::Vec::with_capacity(output_len);
+    for (i, cell) in page.iter().skip(page.len() - output_len).enumerate() {
+        if cell.address != output_start + Felt::from(i) {
+            return Err(PublicInputError::MainPageInvalid);
+        }
+        output.push(cell.value);
+    }
+
+    Ok((program, output))
+}
+
 pub fn safe_div(value: Felt, divisor: Felt) -> Result<Felt, FeltIsZeroError> {
     Ok(value.floor_div(&NonZeroFelt::try_from(divisor)?))
 }
@@ -165,6 +204,9 @@ pub enum PublicInputError {
 
     #[error("invalid number of segments")]
     InvalidSegments,
+
+    #[error("main page does not hold the program and output cells at their addresses")]
+    MainPageInvalid,
 
     #[error("dynamic params missing")]
     DynamicParamsMissing,
@@ -263,6 +305,9 @@ pub enum PublicInputError {
 
     #[error("invalid number of segments")]
     InvalidSegments,
+
+    #[error("main page does not hold the program and output cells at their addresses")]
+    MainPageInvalid,
 
     #[error("dynamic params missing")]
     DynamicParamsMissing,
